@@ -13,6 +13,7 @@ CONSTANTS
     InfluxStopF = FALSE
     ReaderDone = FALSE
     AlertCloseOnErr = TRUE
+    UdfStopAborts = FALSE
     HookNeedsTmLock = FALSE
 INVARIANTS
     TypeOK
